@@ -329,6 +329,12 @@ def _width_of_guard(test: ast.AST, bw, negated=False) -> set[int] | None:
     return None
 
 
+def _exact_width_guard(test: ast.AST) -> bool:
+    """The guard is false exactly when the width is outside the admitted set (a single comparison, no conjunction
+    with other conditions), so that its else branch excludes those widths."""
+    return isinstance(test, ast.Compare)
+
+
 def _class_universe(fn_node, bw) -> set[int] | None:
     """Widths a class admits at all: `if dtype.bitwidth not in (2, 4): raise` in its __init__."""
     cls = getattr(fn_node, "_parent", None)
@@ -349,6 +355,7 @@ def _controlling_widths(node: ast.AST, bw) -> set[int] | None:
     widths handled by earlier `if <width guard>: return/raise` statements of the same block when the class bounds
     the admissible widths in its constructor."""
     out = None
+    asserted = None
     excluded: set[int] = set()
     child = node
     p = getattr(node, "_parent", None)
@@ -365,20 +372,33 @@ def _controlling_widths(node: ast.AST, bw) -> set[int] | None:
             for s in body[: body.index(child)]:
                 if isinstance(s, ast.If) and not s.orelse and s.body and isinstance(s.body[-1], (ast.Return, ast.Raise)):
                     w = _width_of_guard(s.test, bw)
-                    if w is not None:
+                    if w is not None and _exact_width_guard(s.test):
                         excluded |= w
+                elif isinstance(s, ast.Assert):
+                    # a stated belief about the width: it bounds the widths only where nothing else does (a free-standing
+                    # helper); where guards or the class bound them, the belief has to agree with them, not replace them
+                    w = _width_of_guard(s.test, bw)
+                    if w is not None:
+                        asserted = w if asserted is None else asserted & w
         if fn is not None:
             break
         if isinstance(p, ast.If) and child in p.body:
             w = _width_of_guard(p.test, bw)
             if w is not None:
                 out = w if out is None else out & w
+        elif isinstance(p, ast.If) and child in p.orelse:
+            # the else branch of a width guard: the widths the guard admits are excluded
+            w = _width_of_guard(p.test, bw)
+            if w is not None and _exact_width_guard(p.test):
+                excluded |= w
         child = p
         p = getattr(p, "_parent", None)
     if out is None and excluded and fn is not None:
         uni = _class_universe(fn, bw)
         if uni is not None:
             out = set(uni)
+    if out is None and asserted is not None and (fn is None or _class_universe(fn, bw) is None):
+        out = set(asserted)
     if out is not None:
         out = out - excluded
     return out
